@@ -193,30 +193,17 @@ pub async fn load(config: &Config) -> PersistenceResult<Worterbuch> {
     let selected = selected_slot(config).await?;
 
     // A flush writes the store and the grave goods/last wills of a slot as a unit, so they are
-    // loaded as a unit: first choice is a slot of which both files are intact, only if there is
-    // none a store without its grave goods and last wills is accepted.
-    let mut loaded = None;
-    let mut error = None;
-    'search: for complete in [true, false] {
-        for slot in [selected, !selected] {
-            match try_load_slot(config, slot, complete).await {
-                Ok(it) => {
-                    loaded = Some((slot, it));
-                    break 'search;
-                }
-                Err(e) => {
-                    warn!(
-                        "Could not load persistence slot {}: {e}",
-                        if slot { "a" } else { "b" }
-                    );
-                    error = Some(e);
-                }
-            }
+    // loaded as a unit: a slot of which either file is missing or damaged is an interrupted
+    // flush (or broken) and not used at all.
+    let (slot, (mut wb, grave_goods_last_will)) = match try_load_slot(config, selected).await {
+        Ok(it) => (selected, it),
+        Err(e) => {
+            warn!(
+                "Could not load persistence slot {}: {e}",
+                if selected { "a" } else { "b" }
+            );
+            (!selected, try_load_slot(config, !selected).await?)
         }
-    }
-
-    let Some((slot, (mut wb, grave_goods_last_will))) = loaded else {
-        return Err(error.unwrap_or(PersistenceError::ChecksumMismatch));
     };
 
     if slot != selected {
@@ -224,11 +211,9 @@ pub async fn load(config: &Config) -> PersistenceResult<Worterbuch> {
         flip_selected_slot(config).await?;
     }
 
-    if let Some(grave_goods_last_will) = grave_goods_last_will {
-        wb.apply_grave_goods(grave_goods_last_will.grave_goods)
-            .await;
-        wb.apply_last_wills(grave_goods_last_will.last_will).await;
-    }
+    wb.apply_grave_goods(grave_goods_last_will.grave_goods)
+        .await;
+    wb.apply_last_wills(grave_goods_last_will.last_will).await;
 
     Ok(wb)
 }
@@ -236,8 +221,7 @@ pub async fn load(config: &Config) -> PersistenceResult<Worterbuch> {
 async fn try_load_slot(
     config: &Config,
     slot: bool,
-    complete: bool,
-) -> PersistenceResult<(Worterbuch, Option<GraveGoodsLastWill>)> {
+) -> PersistenceResult<(Worterbuch, GraveGoodsLastWill)> {
     let (
         store_path,
         store_path_checksum,
@@ -250,22 +234,11 @@ async fn try_load_slot(
         "Trying to load persistence file {} …",
         store_path.to_string_lossy()
     );
-    let grave_goods_last_will = match try_load_grave_goods_last_will(
+    let grave_goods_last_will = try_load_grave_goods_last_will(
         &grave_goods_last_will_path,
         &grave_goods_last_will_path_checksum,
     )
-    .await
-    {
-        Ok(it) => Some(it),
-        Err(e) if complete => return Err(e),
-        Err(e) => {
-            warn!(
-                "Could not load persistence file {}: {e}",
-                grave_goods_last_will_path.to_string_lossy()
-            );
-            None
-        }
-    };
+    .await?;
     let wb = try_load(&store_path, &store_path_checksum, config).await?;
 
     Ok((wb, grave_goods_last_will))
